@@ -57,6 +57,19 @@ fn digest_out<T: AsRef<[u8]>>(o: &Out<T>) -> u64 {
     }
 }
 
+fn digest_analysis(o: &Out<crate::api::Analysis>) -> u64 {
+    match o {
+        Out::Ok(a) => {
+            let mut h = hash64_seeded(&a.plain, 11);
+            h ^= hash64_seeded(&a.corr, 12).rotate_left(7);
+            h ^= hash64_seeded(a.params.as_bytes(), 13).rotate_left(13);
+            h ^ (a.size as u64).wrapping_mul(0x9E3779B97F4A7C15)
+        }
+        Out::Err(c) => hash64_seeded(c.as_bytes(), 2),
+        Out::Panic(s) => hash64_seeded(s.as_bytes(), 3),
+    }
+}
+
 /// result of function `f` on input `i`, reduced to a 64-bit digest (payload bytes incl. the Debug
 /// rendering of the parameters; or the error code; or the panic site)
 pub fn eval(f: usize, i: &Input) -> u64 {
@@ -353,6 +366,48 @@ impl C14 {
                             &inputs[i].stream,
                         );
                     }
+                }
+            }
+        }
+        // (a°) the same bytes at other memory alignments: slices that start 1..7 bytes past an 8-byte boundary
+        for (i, inp) in inputs.iter().enumerate() {
+            let off = 1 + (i % 7);
+            let shifted = |d: &[u8]| -> Vec<u8> {
+                let mut v = vec![0u8; off];
+                v.extend_from_slice(d);
+                v
+            };
+            let (s2, p2, c2, f2, k2) = (shifted(&inp.stream), shifted(&inp.plain), shifted(&inp.corr), shifted(&inp.file), shifted(&inp.container));
+            let moved = Input {
+                stream: Vec::new(),
+                file: Vec::new(),
+                plain: Vec::new(),
+                corr: Vec::new(),
+                container: Vec::new(),
+                frame: Vec::new(),
+                what: String::new(),
+            };
+            let _ = moved;
+            let got = [
+                digest_analysis(&cur::analyze(&s2[off..], false)),
+                digest_out(&cur::reconstruct(&p2[off..], &c2[off..])),
+                digest_out(&cur::expand(&f2[off..])),
+                digest_out(&cur::recreate(&k2[off..])),
+            ];
+            ctx.count_n("evaluations", 4);
+            for (slot, f) in [0usize, 2, 3, 4].iter().enumerate() {
+                if got[slot] != base[i][*f] {
+                    bad = true;
+                    ctx.violation(
+                        "alignment_dependence",
+                        &format!("alignment_dependence|{}", FUNC_NAMES[*f]),
+                        &format!(
+                            "{} returned a different result for the same bytes in a slice starting {} bytes past an 8-byte boundary on {}",
+                            FUNC_NAMES[*f], off, inp.what
+                        ),
+                        json!({"function": FUNC_NAMES[*f], "offset": off, "input": inp.what}),
+                        &inp.stream,
+                    );
                 }
             }
         }
